@@ -1198,6 +1198,14 @@ def _more_classes(fn, F, M, lp, li, phis, cg):
                     li.cls = "C"
                     li.witness = "cursor advances one element per iteration and the back edge requires the element at the cursor to be non-zero (terminated string/array)"
                     return
+        # search-and-replace: every iteration finds one occurrence of a byte with strchr / memchr and overwrites it with another byte
+        from .bytemap import find_search_replace
+        for sr in find_search_replace(fn, F):
+            if sr.loop["header"] == lp["header"]:
+                li.cls = "C"
+                li.witness = ("each iteration finds the next 0x%02x with %s and overwrites it with 0x%02x; exit when none is found (one occurrence fewer each "
+                              "time, in a finite buffer)" % (sr.byte, sr.kind, sr.repl))
+                return
         # strchr advance: p' = strchr(p, c) + 1, exit when strchr returns NULL
         es_ = [M.match(("gep", ("bind", "s", ("call", "strchr", [("inst", p.id), ANY])), [1]), v, {}) for v, b in backs]
         if es_ and all(e is not None for e in es_) and all(
